@@ -200,6 +200,8 @@ def check(model: Model, tier: str):
     from ..normguard import rule_enrich_width
     obs += rule_enrich_width(model, "_division.amen_divide")
     from ..normguard import rule_scale_free
+    from ..normguard import rule_homogeneous
+    obs += rule_homogeneous(model, "_division.amen_divide")
     obs += rule_scale_free(model, "_division.amen_divide")
     fs = [model.func(a) for a in ANCHORS]
     exc = {}
